@@ -339,7 +339,7 @@ def replay(data):
 	"""Re-runs the recorded invocation of the real generator and compares with the checked-in module."""
 	recorded = data['replay']
 	spec = recorded['invocation']
-	scratch = common.scratch_dir('c03-replay')
+	scratch = common.scratch_dir('c03')
 	try:
 		outputs, extra, detail = run_spec(spec, scratch)
 		print('invocation:', describe(spec))
